@@ -256,6 +256,10 @@ let mk_sset len q sums = { SSet.ss_len = n_of_int len; ss_q = n_of_int q; ss_sum
 let pr_str w = List.iter (fun r -> let c = int_of_n r in
   if c < 128 then Buffer.add_char buf (Char.chr c) else Buffer.add_utf_8_uchar buf (Uchar.of_int c)) w
 
+let q_mismatch = ref false
+let d3_fail = ref 0
+let d_total = ref 0
+
 let run_match dir total_less =
   let digits = List.filter_map (fun l -> match List.filter (fun x -> x <> "") (fields l) with
       | [a; b] -> Some (n_of_int (int_of_string a), n_of_int (int_of_string b)) | _ -> None)
@@ -268,7 +272,10 @@ let run_match dir total_less =
   iter_lines (fun line ->
     match fields line with
     | ["CORPUS"; id] -> cur_corpus := Some (int_of_string id); cur_words := Hashtbl.create 4096; cur_docs := []
-    | ["THR"; bits; "Q"; _] -> cur_thr := Float64.of_bits (z_of_int (int_of_string bits))
+    | ["THR"; bits; "Q"; q] ->
+      cur_thr := Float64.of_bits (z_of_int (int_of_string bits));
+      (* q of the running classifier vs computeQ of the model *)
+      if int_of_z (SSet.compute_q !cur_thr) <> int_of_string q then q_mismatch := true else q_mismatch := false
     | ["WORD"; id; w] -> Hashtbl.replace !cur_words (int_of_string id) (runes_of_dot w)
     | ["WORD"; id] -> Hashtbl.replace !cur_words (int_of_string id) []
     | "DOC" :: key :: "Q" :: q :: "IDS" :: rest ->
@@ -330,10 +337,14 @@ let run_match dir total_less =
            let doc = List.find_opt (fun d ->
              String.concat "." (List.map (fun r -> string_of_int (int_of_n r)) d.Match.cd_key) = k) c.docs in
            let src = List.map int_of_n (ScoringProof.src ds) and dst = List.map int_of_n (ScoringProof.dst ds) in
-           let ok = (match doc with Some d -> dst = List.map int_of_n d.Match.cd_ids | None -> false)
-                    && src = span && List.for_all (fun (_, l) -> l <> []) ds in
-           if not ok then incr bad) diffs;
+           (* D1: a valid edit script between span and document *)
+           let ok = (match doc with Some d -> dst = List.map int_of_n d.Match.cd_ids | None -> false) && src = span in
+           if not ok then incr bad;
+           (* D3 (hypothesis of the trimming theorem): no entry with an empty text; counted, not required *)
+           if not (List.for_all (fun (_, l) -> l <> []) ds) then incr d3_fail;
+           incr d_total) diffs;
          if !bad > 0 then pr "ORACLE-INVALID(%d/%d) " !bad !checked;
+         if !q_mismatch then pr "Q-MISMATCH ";
          let tset = mk_sset (List.length ids) q sums in
          (match Match.match_tokens cfg c.docs (List.map n_of_int ids) (List.map z_of_int lines)
                   (List.map z_of_int pseudo) tset with
@@ -370,7 +381,10 @@ let () =
   | [| _; "tokwf"; dir |] -> run_tokwf dir
   | [| _; "normalize"; dir; "amps" |] -> run_normalize dir "amps" ""
   | [| _; "normalize"; dir; "run"; uefile |] -> run_normalize dir "run" uefile
-  | [| _; "match"; dir; tl |] -> run_match dir (tl = "total")
+  | [| _; "match"; dir; tl |] ->
+    run_match dir (tl = "total");
+    let oc = open_out (Filename.concat dir "oracle_stats.txt") in
+    Printf.fprintf oc "scripts=%d empty_entry_scripts=%d\n" !d_total !d3_fail; close_out oc
   | [| _; "reader"; dir; variant; "amps" |] -> run_reader dir variant "" "amps"
   | [| _; "reader"; dir; variant; "run"; uefile |] -> run_reader dir variant uefile "run"
   | [| _; "tok"; dir; mode; "amps" |] -> run_tok dir mode "amps" ""
